@@ -525,7 +525,12 @@ class Interp:
                 rs = [self.truth(self.apply(args[0], [c], n), n) for c in recv]
                 return all(rs) if name == "all" else any(rs)
             if name == "next" and not args:
-                raise Unsupported("stateful iterator use", n.get("sp"))
+                # the iterator value is a list held by the interpreter: taking the first element advances it
+                return ("Some", recv.pop(0)) if recv else ("None",)
+            if name in ("last",) and not args:
+                return ("Some", recv[-1]) if recv else ("None",)
+            if name == "count" and not args:
+                raise Unsupported("length of the name inspected", n.get("sp"))
             if name in ("rev",):
                 return list(reversed(recv))
             if name in ("into_iter", "iter", "by_ref", "peekable", "copied", "cloned"):
